@@ -123,7 +123,15 @@ def c16(res):
 
 @check("C18")
 def c18(res):
+    from . import m2_query
+
     outs = _m1_common(res, "C18")
+    qouts = m2_query.run("C18", res.tier)
+    m2_query.classify(qouts, res, "C18")
+    for out in qouts:
+        for d in out["lockstep_diff"]:
+            res.violation({"property": "C18", "module": "query", "config": out["config"]["name"],
+                           "why": "NodeMixin and LightNodeMixin classes answered a query differently", **d})
     n = 0
     for out in outs:
         for d in out["lockstep_diff"]:
@@ -135,3 +143,53 @@ def c18(res):
     res.distinct = res.replayed
     res.exhaustive = True
     res.sample(_sample_vector(outs) or "see replays_per_family")
+
+
+# ---------------------------------------------------------------------------------------------------------------- M2
+def _m2(res, prop, rule):
+    from . import m2_query
+
+    outs = m2_query.run(prop, res.tier)
+    m2_query.classify(outs, res, prop)
+    res.rule = rule
+    res.distinct = sum(o["vectors"] for o in outs)
+    res.exhaustive = True
+    for o in outs[:1]:
+        from . import tlc as T
+        import itertools, json as _json
+
+        for line in itertools.islice(T.read_lines(o["tlc"]["lines_path"]), 3, 5):
+            res.sample(_json.loads(_json.loads(line)))
+    res.assumptions += ["bounded tree size (see configs); node identity only (no user special methods, see C17)",
+                        "nodes are built through the public API on fresh objects per vector; live-object histories are covered by the trace checks"]
+    return outs
+
+
+SHAPES_RULE = ("TLC enumerates every ordered forest/tree shape with up to MaxN nodes (canonical pre-order labelling) as initial states "
+               "and every query with every argument combination as a transition whose result is the definition in module Tree; "
+               "each transition is one vector replayed on fresh real objects (NodeMixin and LightNodeMixin classes in full, Node/AnyNode/SymlinkNode on a seeded sample). ")
+
+
+@check("C04")
+def c04(res):
+    _m2(res, "C04", SHAPES_RULE + "Queries: all navigation attributes of every node (one vector per node), util.commonancestors for every node tuple up to length 3, leftsibling/rightsibling. Cross-lemmas Lem_Nav checked by TLC on every shape.")
+
+
+@check("C05")
+def c05(res):
+    _m2(res, "C05", SHAPES_RULE + "Queries: the five iterators from every start node, unrestricted. TLC checks the transcribed algorithms against the definitional orders (Thm_Iters) and the lemmas Lem_Orders (permutation of the subtree, groups concatenate to level order, post-order = mirror of pre-order of the mirrored tree ...).")
+
+
+@check("C06")
+def c06(res):
+    _m2(res, "C06", SHAPES_RULE + "Queries: the five iterators for every start node x every stop set x every filtered-out set x every maxlevel in {-1, 0 .. height+2, None}; the as-built algorithms are proved equal to the definition `admitted and filtered` by TLC on every combination (Thm_Iters). A differing observation is judged relative to the iterator's own observed unrestricted traversal.")
+
+
+@check("C14")
+def c14(res):
+    _m2(res, "C14", SHAPES_RULE + "Queries: findall/find with stop, filter, maxlevel and every mincount/maxcount in {None, 0..n+1}; findall_by_attr/find_by_attr for every assignment of {absent, v1, v2} to the nodes; each executed through anytree.search and anytree.cachedsearch. Judged relative to what PreOrderIter yielded for the same arguments.")
+
+
+@check("C15")
+def c15(res):
+    _m2(res, "C15", SHAPES_RULE + "Queries: Walker.walk for every ordered pair of nodes of every forest (same tree and different trees). Lem_Walk (simple path along links, mirror image, relation to commonancestors) checked by TLC on every shape.")
